@@ -34,6 +34,12 @@ Why(c, o) == LET e == PEnd(c)
    ELSE IF ObsInts(o) = f.ints /\ nodup THEN ""
    ELSE IF ObsInts(o) = StripLi(PIntsW(c, e.app, TRUE)) /\ nodup THEN "known-verkey"
    ELSE "interactions"
+\* what differs, for the report of a rejected record
+Detail(c, o) == LET f == PFinal(c) IN
+   [ints_expected_not_observed |-> SetToSeq(f.ints \ ObsInts(o)), ints_observed_not_expected |-> SetToSeq(ObsInts(o) \ f.ints),
+    calls_expected_not_observed |-> SetToSeq(f.calls \ ObsCalls(o)), calls_observed_not_expected |-> SetToSeq(ObsCalls(o) \ f.calls),
+    edges_expected_not_observed |-> SetToSeq({SetToSeq(e) : e \in f.edges \ ObsEdges(o)}), edges_observed_not_expected |-> SetToSeq({SetToSeq(e) : e \in ObsEdges(o) \ f.edges}),
+    missing_expected |-> SetToSeq({SetToSeq(e) : e \in Missing(c, f.edges)})]
 Verdict(t) == LET c == Traces[t].input IN
    IF ~(InDomain(c) /\ NoTies(c) /\ Stable(c)) THEN "skip" ELSE Why(c, Traces[t].obs)
 
@@ -44,7 +50,8 @@ TSpec == TInit /\ [][UNCHANGED <<vars, tid>>]_<<vars, tid>>
 Judge == LET v == Verdict(tid) IN
            IF v = "" THEN TLCSet(1, TLCGet(1) \cup {tid})
            ELSE IF v = "skip" THEN TLCSet(2, TLCGet(2) \cup {tid})
-           ELSE TLCSet(3, TLCGet(3) \cup {<<tid, v>>})
+           ELSE /\ TLCSet(3, TLCGet(3) \cup {<<tid, v>>})
+                /\ PrintT(<<"DETAIL", ToJson([tid |-> tid, why |-> v, detail |-> Detail(Traces[tid].input, Traces[tid].obs)])>>)
 Accepted == /\ PrintT(<<"SKIPPED", ToJson(SetToSeq(TLCGet(2)))>>)
             /\ IF TLCGet(3) = {} /\ TLCGet(1) \cup TLCGet(2) = 1..Len(Traces) THEN TRUE
                ELSE (PrintT(<<"REJECTED", ToJson(SetToSeq(TLCGet(3)))>>) /\ FALSE)
